@@ -4,7 +4,7 @@ P(role, slot, quick, slow, thr, start) ==
     [role |-> role, slot |-> slot, quick |-> quick, slow |-> slow, thr |-> thr, start |-> start]
 
 (* unit-grain parameters for the exhaustive runs (Sched = "any"): base 1 or 2, quick 1, slow 2 *)
-ParamsUnit == {P("third", 3, 1, 2, 2, 1), P("twothirds", 3, 1, 2, 2, 1), P("flat", 3, 1, 2, 2, 1)}
+ParamsUnit == {P("third", 3, 1, 2, 2, 1), P("twothirds", 3, 1, 2, 2, 0), P("flat", 3, 1, 2, 2, 0)}
 ParamsUnitWide == ParamsUnit \cup {P("third", 4, 2, 3, 1, 0), P("twothirds", 5, 1, 3, 3, 2), P("flat", 3, 2, 3, 1, 0)}
 
 (* grid parameters for the behaviours replayed in real time (Sched = "prompt"): every deadline is even,
